@@ -16,6 +16,13 @@ var exceptions = []Exception{
 	{Rule: "G-COMMIT-BOUND", Construct: "store raftLog.committed", Func: "(*raft.RawNode).Bootstrap",
 		Reason: "Bootstrap appends exactly len(ents) entries to the empty log immediately before committing them; the append's effect on lastIndex is a value fact outside the engine",
 		Props:  []string{"C06"}},
+	{Rule: "C19.M", Construct: "range over map local[nil:nil:nil][(phi+1)]", Func: "confchange.checkInvariants",
+		Reason: "the early return is an error whose *text* names the first offending id in map order; callers only test err != nil (Changer returns it, raft panics on it); no Ready content depends on the text",
+		Props:  []string{"C19"}},
+	{Rule: "C19.M", Construct: "range over map $cfg.LearnersNext", Func: "confchange.checkInvariants",
+		Reason: "error text only (see above)", Props: []string{"C19"}},
+	{Rule: "C19.M", Construct: "range over map $cfg.Learners", Func: "confchange.checkInvariants",
+		Reason: "error text only (see above)", Props: []string{"C19"}},
 }
 
 func exceptionKey(rule, construct, fn string) string { return rule + " | " + construct + " | " + fn }
